@@ -308,6 +308,12 @@ pub struct ScriptCase {
     pub max_controls: Option<u8>,
     pub chunk: u16,
     pub steps: Vec<Step>,
+    /// the final READ is sent at once - whatever wait the script has left the session in - and the master keeps sending
+    /// something that must not push any deadline back (kind, every N ms): 0 unsolicited CONFIRM for the sequence number
+    /// before the outstanding one, 1 unsolicited CONFIRM for another sequence number, 2 solicited CONFIRM, 3 link status
+    /// request, 4 a READ from another master address
+    #[serde(default)]
+    pub starve: Option<(u8, u16)>,
 }
 
 pub struct OutstationScript;
@@ -318,7 +324,7 @@ impl Prop for OutstationScript {
     const NAME: &'static str = "outstation_script";
     const TRACK_STALL: bool = true;
     fn rule() -> &'static str {
-        "hostile session scripts against a real outstation session (real link layer, transport function, ServerTask loop): grammar+mutated fragments, raw transport segments, raw wire bytes, well-formed requests that move the session (event polls -> solicited confirm wait, unsolicited enable + updates -> unsolicited confirm wait, SELECT, oversized OPERATE, end-of-range octet strings), database updates into event buffers of 1-3, right/wrong confirms, time advances, reconnects; configuration generated: link error mode, four decode-level axes, rx/tx buffer sizes 249..2048, unsolicited on/off, max_controls; oracle: no panic, no busy loop (poll counter at one virtual instant), and after the script the endpoint still serves: link status request -> LINK_STATUS, READ class 0 with a fresh sequence number -> response with that number (Close mode: on the next connection); non-trivial = an injected item that reached the transport/application layer through valid CRCs while the session was not idle, or any such item in general"
+        "hostile session scripts against a real outstation session (real link layer, transport function, ServerTask loop): grammar+mutated fragments, raw transport segments, raw wire bytes, well-formed requests that move the session (event polls -> solicited confirm wait, unsolicited enable + updates -> unsolicited confirm wait, SELECT, oversized OPERATE, end-of-range octet strings), database updates into event buffers of 1-3, right/wrong confirms, time advances, reconnects; configuration generated: link error mode, four decode-level axes, rx/tx buffer sizes 249..2048, unsolicited on/off, max_controls; oracle: no panic, no busy loop (poll counter at one virtual instant), in two cases of five a READ sent at once after the script - in whatever wait it left the session - is answered within four confirm timeouts although the master keeps sending ignorable traffic (stale or foreign CONFIRMs, link status requests, READs of another master), and after the script the endpoint still serves: link status request -> LINK_STATUS, READ class 0 with a fresh sequence number -> response with that number (Close mode: on the next connection); non-trivial = an injected item that reached the transport/application layer through valid CRCs while the session was not idle, or any such item in general"
     }
     fn cases(tier: Tier) -> u32 {
         match tier {
@@ -364,7 +370,10 @@ impl Prop for OutstationScript {
             1u16..4,
             prop_oneof![3 => Just(None), 1 => (0u8..4).prop_map(Some)],
             prop_oneof![2 => Just(0u16), 1 => 1u16..300],
-            proptest::collection::vec(step, 1..n),
+            (
+                proptest::collection::vec(step, 1..n),
+                prop_oneof![3 => Just(None), 2 => (0u8..5, prop_oneof![Just(1u16), Just(50), Just(99), 1u16..100]).prop_map(Some)],
+            ),
         )
             .prop_map(
                 |(
@@ -377,7 +386,7 @@ impl Prop for OutstationScript {
                     event_buffer,
                     max_controls,
                     chunk,
-                    steps,
+                    (steps, starve),
                 )| ScriptCase {
                     discard,
                     decode,
@@ -389,6 +398,7 @@ impl Prop for OutstationScript {
                     max_controls,
                     chunk,
                     steps,
+                    starve,
                 },
             )
             .boxed()
@@ -613,6 +623,9 @@ async fn run_script(case: &ScriptCase) -> CaseOut {
             rig.send_raw(&vec![0u8; 300]);
             rig.settle().await;
         }
+        if let Some((kind, every)) = case.starve {
+            starved_read(&mut rig, &mut out, kind, every.max(1) as u64, seq, last_unsol.map(|x| x.0)).await;
+        }
         // let every confirm wait expire, then ask
         for _ in 0..3 {
             rig.advance(101).await;
@@ -651,6 +664,65 @@ async fn run_script(case: &ScriptCase) -> CaseOut {
         out.fail(f);
     }
     out
+}
+
+/// a READ sent in whatever state the script has left the session in must be answered within a few confirm timeouts
+/// although the master keeps sending things that are to be ignored: nothing of that kind may push a deadline back
+async fn starved_read(
+    rig: &mut OutRig,
+    out: &mut CaseOut,
+    kind: u8,
+    every: u64,
+    seq: u8,
+    last_unsol: Option<u8>,
+) {
+    let probe_seq = (seq + 5) & 0x0F;
+    let _ = rig.take_tx();
+    rig.send(&read_classes(probe_seq, &[0]));
+    out.label("starved_read");
+    out.nontrivial = true;
+    let mut waited = 0u64;
+    let mut n = 0u8;
+    loop {
+        rig.settle().await;
+        if rig
+            .take_fragments()
+            .iter()
+            .any(|f| f.func == func::RESPONSE && f.fir && f.seq == probe_seq)
+        {
+            return;
+        }
+        if waited > 4 * 100 + every || rig.task_failure.is_some() {
+            break;
+        }
+        let u = last_unsol.unwrap_or(0);
+        match kind % 5 {
+            0 => rig.send(&Fragment::confirm(u.wrapping_sub(1) & 0x0F, true)),
+            1 => rig.send(&Fragment::confirm((u + 3 + n % 11) & 0x0F, true)),
+            2 => rig.send(&Fragment::confirm((probe_seq + 1 + n % 14) & 0x0F, false)),
+            3 => rig.send_raw(&rl::encode(0xC9, OUTSTATION_ADDR, MASTER_ADDR, &[])),
+            _ => {
+                let f = read_classes((probe_seq + 9) & 0x0F, &[1]).encode();
+                let b = rig.frame_fragment(MASTER_ADDR + 1, OUTSTATION_ADDR, &f);
+                rig.send_raw(&b);
+            }
+        }
+        n = n.wrapping_add(1);
+        rig.advance(every).await;
+        waited += every;
+    }
+    if rig.task_failure.is_none() {
+        out.fail(
+            Fail::new(
+                "read-starved-by-ignorable-traffic",
+                format!(
+                    "a READ of class 0 (sequence {probe_seq}) sent after the script was not answered within four confirm timeouts while the master sent {} every {every} ms",
+                    ["unsolicited CONFIRMs for the previous sequence number", "unsolicited CONFIRMs with wrong sequence numbers", "solicited CONFIRMs with wrong sequence numbers", "link status requests", "READs from another master address"][kind as usize % 5]
+                ),
+            )
+            .with_sig(format!("C01 outstation read-starved kind={}", kind % 5)),
+        );
+    }
 }
 
 pub fn run<C: Codec>(tier: Tier) -> i32 {
